@@ -152,3 +152,28 @@ Example C07_sniff_examples :
   /\ sniff (bs "HTTP/1.1 200 OK" ++ crlf ++ bs "Content-Type: nonsense" ++ crlf ++ crlf) = ([45], bs "200")
   /\ sniff (bs "garbage") = ([45], [45]).
 Proof. vm_compute. repeat split. Qed.
+
+(* A failed append in the middle of two exchanges in flight: session 0's response record cannot be
+   appended (I/O error, rolled back), the very next record written is session 1's response.  The
+   theorems above cover this history (HWriteFailed is an event like any other); here: exactly one
+   CDX line, for session 1's response, and it addresses the bytes right behind session 1's request
+   record - the failed record occupies nothing. *)
+Definition failed_append_ops : list op :=
+  [ OHttp 0 HNew; OHttp 1 HNew;
+    OHttp 0 (HBeginRequest (bs "http://h.test/a") (bs "10.0.0.1"));
+    OHttp 0 (HRequestData (bs "GET /a HTTP/1.1" ++ crlf ++ crlf)); OHttp 0 (HEndRequest 19);
+    OHttp 1 (HBeginRequest (bs "http://h.test/b") (bs "10.0.0.1"));
+    OHttp 1 (HRequestData (bs "GET /b HTTP/1.1" ++ crlf ++ crlf)); OHttp 1 (HEndRequest 19);
+    OHttp 0 (HResponseData toy_head); OHttp 0 HBeginResponse; OHttp 0 (HResponseData (bs "hello"));
+    OHttp 1 (HResponseData toy_head); OHttp 1 HBeginResponse; OHttp 1 (HResponseData (bs "world!"));
+    OHttp 0 HWriteFailed; OHttp 0 HClose;
+    OHttp 1 (HEndResponse 42 None); OHttp 1 HClose ].
+Example C07_failed_append_nonvacuous :
+  exists st l ev,
+    lifetime 8 toyO (toyC false) [] failed_append_ops (bs "log line") = Some st
+    /\ st_lines st = [l]
+    /\ x_url l = bs "http://h.test/b"
+    /\ nth_error (filter (fun e => is_cdx_record (efields e)) (evs st)) 0 = Some ev
+    /\ x_off l = e_off ev /\ x_size l = e_len ev
+    /\ length (filter (fun e => is_cdx_record (efields e)) (evs st)) = 1%nat.
+Proof. eexists; eexists; eexists. split; [vm_compute; reflexivity|]. vm_compute. repeat split. Qed.
